@@ -20,6 +20,7 @@ import anyio  # noqa: E402
 from asphalt.core import (  # noqa: E402
     CLIApplicationComponent,
     Component,
+    context_teardown,
     current_context,
     run_application,
     start_service_task,
@@ -57,6 +58,24 @@ class CallableObject:
             self.ran("none" if args[0] is None else describe(args[0]))
         else:
             self.ran("noarg")
+
+
+class TdA:
+    pass
+
+
+class TdB:
+    pass
+
+
+class TdRes(TdA, TdB):
+    pass
+
+
+@context_teardown
+async def shared_second_half(ran):
+    exc = yield
+    ran("none" if exc is None else describe(exc))
 
 
 class TdErr(Exception):
@@ -122,14 +141,21 @@ async def do_action(a, who):
         kids = a[3] if len(a) > 3 else []
         ctx = current_context() if who != "driver" else w.root_ctx
 
-        def register(ctx, cid, pass_exc, kids):
+        def register(ctx, cid, pass_exc, kids, top=False):
             def ran(arg):
                 w.obs("Td", cid, arg)
                 for kid, kpass in kids:          # registered while the teardown is running
                     register(ctx, kid, kpass, [])
                 if cid in (w.case.get("raisers") or []):
                     raise TdErr(cid)             # the callback fails: the others still run, and this comes out
-            if cid % 3 == 2:
+            if cid % 7 == 3 and not pass_exc and cid % 3 != 2 and cid % 5 != 4:
+                # the callback comes with a resource published under two types: ONE callback, called once
+                ctx.add_resource(TdRes(), f"tdres{cid}", [TdA, TdB], teardown_callback=lambda: ran("noarg"))
+            elif cid % 7 == 5 and pass_exc and top and who != "driver" and cid % 3 != 2 and cid % 5 != 4:
+                # the second half of a @context_teardown function -- ONE decorated function shared by every such
+                # registration of the run, as the components of one class share their start()
+                return ("ctxtd", ran)
+            elif cid % 3 == 2:
                 # the callback hands back an awaitable that is not a coroutine: its work is done when that has
                 # been awaited
                 def later(arg):
@@ -151,7 +177,9 @@ async def do_action(a, who):
                 ctx.add_teardown_callback(lambda exc: ran("none" if exc is None else describe(exc)), pass_exception=True)
             else:
                 ctx.add_teardown_callback(lambda: ran("noarg"))
-        register(ctx, cid, pass_exc, kids)
+        deferred = register(ctx, cid, pass_exc, kids, top=True)
+        if deferred:
+            await shared_second_half(deferred[1])
         w.obs("Reg", cid, bool(pass_exc), kids)
     elif k == "Svc":
         sid = a[1]
